@@ -52,7 +52,8 @@ def tot(exp, col, periods):
 def run_case(spec):
   r, g = util.rngs(PROP, spec['seed'], spec['idx'])
   mod = bootstrap.mm('tbr_iroas')
-  scenario = r.choice(['fixed', 'variable', 'fixed', 'variable', 'treatment_pre_only'])
+  scenario = r.choice(['fixed', 'variable', 'fixed', 'variable', 'treatment_pre_only', 'late_treatment_spend',
+                       'control_pinned'])
   metric = r.choice(['tbr_response', 'tbr_response', 'tbr_cost'])
   extras = set()
   if r.random() < 0.2:
